@@ -31,6 +31,14 @@ pub struct Shared {
     pub reacts: Vec<(u64, u64, LifeOp)>,
     /// `post <op>` entries waiting for the next frame.
     pub posts: Vec<LifeOp>,
+    /// `key` ops issued in `inject first` mode, waiting for the next frame's `First`.
+    pub first_keys: Vec<(usize, bool)>,
+    /// `mb` ops issued in `inject first` mode, waiting for the next frame's `First`.
+    pub first_buttons: Vec<(usize, bool)>,
+    /// Deliveries seen by the probe in `PreUpdate` after `EnhancedInputSystem`.
+    pub probe_pre: Option<u64>,
+    /// Deliveries seen by the probe in `Update`.
+    pub probe_update: Option<u64>,
 }
 
 static SHARED: Mutex<Option<Shared>> = Mutex::new(None);
